@@ -86,7 +86,7 @@ func genC11(t *rapid.T) E1Case {
 		if rapid.IntRange(0, 3).Draw(t, "mix") == 0 {
 			e = rapid.SampledFrom(c11Entries).Draw(t, "entry2")
 		}
-		op := E1Op{Op: e, Sizes: []int{rapid.SampledFrom([]int{1, 2, 9, 100, 1500}).Draw(t, "sz")}}
+		op := E1Op{Op: e, Sizes: []int{rapid.SampledFrom([]int{0, 1, 2, 9, 100, 1500}).Draw(t, "sz")}}
 		if e == "writev" || e == "ctxwritev" {
 			op.Sizes = append(op.Sizes, rapid.IntRange(0, 5).Draw(t, "sz2"))
 		}
